@@ -31,7 +31,10 @@ if r.returncode == 0:
     rebased = False
 else:
     r = sh('git -C /repo apply --3way %s/patch.diff' % src)
-    assert r.returncode == 0, 'patch does not apply even 3-way: ' + r.stderr
+    if r.returncode != 0:
+        sh('git -C /repo reset -q')
+        sh('git -C /repo checkout -q -- .')
+        raise SystemExit('NEEDS-MANUAL-REBASE %s %s: %s' % (P, K, r.stderr.strip()[-120:]))
     sh('git -C /repo reset -q')
     rebased = True
 diff = sh('git -C /repo diff').stdout
